@@ -2,7 +2,5 @@
 
 package packetlimiter
 
-import "time"
-
-// nowNano is the clock of Limiter.Account.
-func nowNano() int64 { return time.Now().UnixNano() }
+// verifNow is the identity unless built with the "verif" tag (see clock_verif.go).
+func verifNow(wall int64) int64 { return wall }
